@@ -19,6 +19,7 @@ type g struct {
 	levels  []string // topic-name level alphabet
 	flevels []string // filter level alphabet
 	emptyN  int
+	willN   int
 	tier    string
 }
 
@@ -979,7 +980,8 @@ func (x *g) firstPacket(cid string) ([]byte, string) {
 		p.WillQoS = byte(r.Intn(3))
 		p.WillRetain = r.Bool(1, 3)
 		p.WillTopic = "c11/will"
-		p.WillMessage = payload(srcWill+1, 99, 8+r.Intn(30))
+		x.willN++
+		p.WillMessage = payload(srcWill+1, 900+x.willN, 8+r.Intn(30))
 	}
 	switch r.Intn(4) {
 	case 0:
@@ -1070,9 +1072,14 @@ func genConnect(prop string) func(tier string, seed uint64, idx int) interface{}
 		wc.Auth, wc.User, wc.Pass = true, "w", "secret-w"
 		w.Ops = append(w.Ops, wc, Op{K: "sub", PID: 1, Filters: []string{"#"}, QoSs: []byte{2}}, Op{K: "barrier"}, Op{K: "barrier"}, Op{K: "barrier"}, Op{K: "ping"})
 		x.sc.Clients = append(x.sc.Clients, w)
+		used := map[string]bool{}
 		for a := 0; a < na; a++ {
 			ai := 1 + 2*a
 			cid, _ := x.clientIDVariant()
+			for used[cid] {
+				cid, _ = x.clientIDVariant()
+			}
+			used[cid] = true
 			cl := Client{Role: "attacker"}
 			cl.Ops = append(cl.Ops, Op{K: "barrier"}, Op{K: "open"})
 			fp, _ := x.firstPacket(cid)
@@ -1095,7 +1102,7 @@ func genConnect(prop string) func(tier string, seed uint64, idx int) interface{}
 				cl.Ops = append(cl.Ops, Op{K: "raw", Raw: refmqtt.Encode(p)})
 			}
 			// let the connect timeout pass, then see what happened
-			cl.Ops = append(cl.Ops, Op{K: "sleep", D: 2500 + r.Intn(3000)}, Op{K: "barrier"}, Op{K: "barrier"})
+			cl.Ops = append(cl.Ops, Op{K: "sleep", D: 2500 + r.Intn(3000)}, Op{K: "close"}, Op{K: "barrier"}, Op{K: "barrier"})
 			x.sc.Clients = append(x.sc.Clients, cl)
 			// prober: same identifier, persistent session, looks at retained state
 			pr := Client{Role: "prober"}
@@ -1338,4 +1345,83 @@ func enumWitness(tier string) []interface{} {
 		}
 	}
 	return out
+}
+
+// genKeepAlive is the C19 profile.
+func genKeepAlive(prop string) func(tier string, seed uint64, idx int) interface{} {
+	return func(tier string, seed uint64, idx int) interface{} {
+		x := newGen(seed, prop, idx, tier)
+		r := x.r
+		x.sc.Profile = "keepalive"
+		x.knobs()
+		x.sc.Knobs.LinkCap = 65536
+		x.alphabet(false)
+		nk := 1 + r.Intn(3)
+		nc := nk + 1
+		x.seq = make([]int, nc)
+		x.pid = make([]int, nc)
+		w := Client{Role: "witness"}
+		wc := x.connect(0, true)
+		wc.KA = 0 // broker default minimum: far beyond the run
+		wc.KA = 6000
+		w.Ops = append(w.Ops, wc, Op{K: "sub", PID: 1, Filters: []string{"#"}, QoSs: []byte{2}}, Op{K: "barrier"})
+		// the witness itself stays active
+		for i := 0; i < 6; i++ {
+			w.Ops = append(w.Ops, Op{K: "sleep", D: 20000}, Op{K: "ping"})
+		}
+		x.sc.Clients = append(x.sc.Clients, w)
+		for ci := 1; ci < nc; ci++ {
+			k := []int{1, 2, 3, 5, 10}[r.Intn(5)]
+			cl := Client{}
+			op := Op{K: "connect", CID: fmt.Sprintf("k%d", ci), Clean: true, KA: k}
+			if r.Bool(2, 3) {
+				op.Will = &Will{Topic: fmt.Sprintf("will/k%d", ci), QoS: byte(r.Intn(3)), Size: 8 + r.Intn(40)}
+			}
+			cl.Ops = append(cl.Ops, Op{K: "barrier"}, op)
+			active := func(rounds int) {
+				for i := 0; i < rounds; i++ {
+					f := 200 + r.Intn(750) // 0.2 .. 0.95 of K
+					cl.Ops = append(cl.Ops, Op{K: "sleep", D: k * f})
+					switch r.Intn(4) {
+					case 0:
+						cl.Ops = append(cl.Ops, x.pub(ci, 2))
+					case 1:
+						p := x.pub(ci, 0)
+						p.NoWait = true
+						cl.Ops = append(cl.Ops, p)
+					default:
+						cl.Ops = append(cl.Ops, Op{K: "ping", NoWait: r.Bool(1, 3)})
+					}
+				}
+			}
+			switch r.Intn(5) {
+			case 0: // silent from the start
+				cl.Ops = append(cl.Ops, Op{K: "sleep", D: k*2000 + 1500 + r.Intn(3000)})
+			case 1: // traffic, then silence
+				active(1 + r.Intn(6))
+				cl.Ops = append(cl.Ops, Op{K: "sleep", D: k*2000 + 1500 + r.Intn(3000)})
+			case 2: // active throughout, leaves with DISCONNECT or stays
+				active(3 + r.Intn(12))
+				if r.Bool(1, 2) {
+					cl.Ops = append(cl.Ops, Op{K: "disc"})
+				}
+			case 3: // one packet dribbled byte by byte at intervals below K, then silence
+				b := refmqtt.Encode(&refmqtt.Packet{Type: refmqtt.PUBLISH, Topic: "dribble", Payload: payload(ci, 1, 8)})
+				x.seq[ci] = 1
+				for i := 0; i < len(b); i++ {
+					cl.Ops = append(cl.Ops, Op{K: "raw", Raw: b[i : i+1]})
+					if i%3 == 2 {
+						cl.Ops = append(cl.Ops, Op{K: "sleep", D: k * (200 + r.Intn(700))})
+					}
+				}
+				cl.Ops = append(cl.Ops, Op{K: "ping"}, Op{K: "sleep", D: k*2000 + 2000})
+			default: // active, silent (dropped), reconnect, active
+				active(2 + r.Intn(4))
+				cl.Ops = append(cl.Ops, Op{K: "sleep", D: k*2000 + 1500}, op)
+				active(2 + r.Intn(4))
+			}
+			x.sc.Clients = append(x.sc.Clients, cl)
+		}
+		return x.sc
+	}
 }
